@@ -384,6 +384,21 @@ pub fn c18_all(m: &mut Mon, ctx: &StepCtx, stats: &mut Stats, out: &mut Vec<Viol
             }
         }
     }
+    // 5b. ... and the refresh is real: after a committed allowance burn the rates the hub has
+    // stored are the rates its State query computes from the new supply
+    if o.ok && matches!(ctx.op, Some(Op::BurnFrom { .. })) {
+        if let Some(h) = &ctx.post.hub {
+            if let (Some(raw), Some(st)) = (&h.raw, &h.state) {
+                stats.check("c18_burn_refresh_is_stored");
+                if h.params.paused.unwrap_or(false) {
+                    stats.probe("c18_burn_from_committed_while_hub_paused");
+                }
+                if raw.bsei_exchange_rate != st.bsei_exchange_rate || raw.stsei_exchange_rate != st.stsei_exchange_rate {
+                    viol(out, "C18", "burn_refreshes_hub_rates", ctx.idx, "hub.State:stale_after_burn", format!("after BurnFrom the hub stores rates ({}, {}) but its State query computes ({}, {})", raw.bsei_exchange_rate, raw.stsei_exchange_rate, st.bsei_exchange_rate, st.stsei_exchange_rate));
+                }
+            }
+        }
+    }
     // 2 + 4: direct token operations against the allowance / balance model
     let op = match ctx.op {
         Some(op) => op,
